@@ -113,6 +113,8 @@ theorem step_no_bug (p : P) (h : Inv p) (op : Op) (hv : handlesValid p op = true
     · split
       · split <;> simp
       · simp
+  | removeMapping a b => simp only [step]; split <;> simp
+  | clearMappings a => simp only [step]; split <;> simp
   | string s => simp [step]
   | category a b => simp [step]
   | subcategory a b =>
